@@ -4,7 +4,7 @@ CONSTANTS
  PatAlpha = {97, 98, 44}
  MaxLen = 7
  VarMax = 4
- VarLens = {14, 15, 16, 17, 19, 20, 23, 24, 32, 33, 48}
+ VarLens = {14, 15, 16, 17, 19, 20, 23, 24, 32, 33}
  Repls <- ReplsB
 INVARIANTS SplitJoin ReplaceIsSplitJoin PartsCount ScanIsMin LastIsMax TrimTwoWays WsTwoWays CompareOK SubstrOK
 ACTION_CONSTRAINT Emit
